@@ -29,7 +29,9 @@ from cnfgen.formula.cnf import CNF
 from cnfgen.formula.opb import OPB
 
 RULE = ("every force_* x {unary n,m in 0..4 and (10,5); sparse: empty sides, no edges, isolated vertices, complete, random; "
-        "binary n in 1..4, m in 1..9, 14} x offsets {0,1,3,7,100} x CNF/OPB class; forbid(i,j) with i in 0..n+1 and "
+        "binary n in 1..4, m in 1..9, 14; one element x EVERY range size 1..72 (thorough ..300), around every power of two and "
+        "every 3*2^k up to 2^10 (thorough 2^13), around the integer constants of the current source (common.probe_sizes); two "
+        "elements x sizes up to 40} x offsets {0,1,3,7,100,..} x CNF/OPB class; forbid(i,j) with i in 0..n+1 and "
         "j around -2^bits, 0, m, 2^bits; distinct = distinct request line; the truth-table oracle runs when the mapping has <= 13 variables")
 ASSUMPTIONS = ["binary mappings: injective / nondecreasing are stated on values below m (codes >= m are excluded by "
                "force_complete_mapping, not by these builders)"]
@@ -69,6 +71,8 @@ def build_map(suite, info):
                 return None     # documented: surjectivity only for unary mappings
             return {"force_raised": type(e).__name__}
         n = len(f)
+        if kind == 2 and info["n"] == 1 and n <= 14 and which in (0, 1, 3, 4):
+            return single_element(F, f, info["m"], which, opb)
         if n > 13:
             return None
         cs = list(F) if opb else list(F.clauses())
@@ -126,6 +130,65 @@ def build_map(suite, info):
                 nontrivial=True, info=info)
 
 
+def single_element(F, f, m, which, opb):
+    """binary mapping with ONE domain element: the added constraints must accept exactly the bit strings that encode
+    0..m-1 (complete) resp. all of them (functional / injective / nondecreasing say nothing about a single element).
+    Clauses (and PB constraints of the form sum of literals >= 1) are evaluated by marking the bit strings they
+    exclude; anything else by plain evaluation."""
+    bits = f.bits()
+    ids = [f(1, b) for b in range(bits)]
+    pos = {v: b for b, v in enumerate(ids)}
+    cs = [list(c) for c in (F if opb else F.clauses())]
+    accepted = bytearray(b"\x01") * (1 << bits)
+    slow = []
+    work = 0
+    for c in cs:
+        if opb:
+            if not (c[-2] == ">=" and c[-1] == 1 and all(coef == 1 for coef, _ in c[:-2])):
+                slow.append(c)
+                continue
+            lits = [l for _, l in c[:-2]]
+        else:
+            lits = c
+        if any(abs(l) not in pos for l in lits):
+            slow.append(c)
+            continue
+        need = {}           # bit -> value that makes every literal of the clause false
+        taut = False
+        for l in lits:
+            b, val = pos[abs(l)], (0 if l > 0 else 1)
+            if need.setdefault(b, val) != val:
+                taut = True
+        if taut:
+            continue
+        base = sum(v << b for b, v in need.items())
+        free = [b for b in range(bits) if b not in need]
+        work += 1 << len(free)
+        if work > 4000000:
+            return None                   # not a size this oracle can afford (never the case for the code's encodings)
+        for sub in range(1 << len(free)):
+            x = base
+            for i, b in enumerate(free):
+                if (sub >> i) & 1:
+                    x |= 1 << b
+            accepted[x] = 0
+    if slow and bits > 10:
+        return None
+    holds = common.opb_holds if opb else common.cnf_holds
+    for val in range(1 << bits):
+        got = bool(accepted[val])
+        if got and slow:
+            alpha = Alpha()
+            for b in range(bits):
+                alpha[ids[b]] = bool((val >> b) & 1)
+            got = holds(slow, alpha)
+        want = (val < m) if which == 0 else True
+        if got != want:
+            return {"range_size": m, "bits": bits, "element_mapped_to": val, "formula_accepts": got,
+                    "functional_condition": want, "number_of_constraints": len(cs)}
+    return None
+
+
 def build_forbid(info):
     off, n, m, i, j = info["off"], info["n"], info["m"], info["i"], info["j"]
 
@@ -171,6 +234,24 @@ def map_infos(ctx):
                 out.append(("map_binary", dict(off=rng.choice([0, 3]), n=n, m=m, which=which, opb=opb)))
     out.append(("map_sparse", dict(off=0, which=4, opb=False,
                                    G={"l": 2, "r": 3, "edges": [[1, 2], [1, 3], [2, 1], [2, 3]]})))
+    # range sizes: every one up to a bound, then around the powers of two, the midpoints between them and the constants the
+    # current source compares sizes with.  The property quantifies over all range sizes "not only powers of two";
+    # one domain element keeps the truth table at 2^bits rows.
+    top, pmax = (72, 10) if tier == "quick" else (300, 13)
+    sizes = set(range(1, top + 1))
+    for e in range(2, pmax + 1):
+        for c in (1 << e, 3 << (e - 2), 5 << max(e - 3, 0)):
+            sizes.update(x for x in (c - 2, c - 1, c, c + 1, c + 2) if 1 <= x <= (1 << pmax))
+    sizes.update(common.probe_sizes(["formula/variables.py", "formula/basecnf.py", "formula/baseopb.py"], 1, 1 << pmax))
+    for m in sorted(sizes):
+        heavy = m > 600        # thousands of clauses of 10+ literals: CNF only, completeness only
+        for opb in ((False,) if heavy else (False, True)):
+            out.append(("map_binary", dict(off=rng.choice([0, 0, 1, 7, 100]), n=1, m=m, which=0, opb=opb)))
+        if not heavy and (m <= 40 or rng.random() < .15):
+            out.append(("map_binary", dict(off=rng.choice([0, 3]), n=1, m=m, which=rng.choice([1, 3, 4]), opb=rng.random() < .5)))
+    for m in sorted(x for x in sizes if 10 <= x <= (40 if tier == "quick" else 64)):
+        if tier != "quick" or m % 3 == seed % 3 or m in (15, 16, 17, 31, 32, 33):
+            out.append(("map_binary", dict(off=rng.choice([0, 3]), n=2, m=m, which=rng.choice([0, 0, 3, 4]), opb=rng.random() < .4)))
     reps = 60 if tier == "quick" else 900
     for _ in range(reps):
         G = gen_bip(rng)
